@@ -225,7 +225,7 @@ func (p *Impl) loadCachePkgs(lines []string) error {
 			return errInvalidFormat
 		}
 		n, e := strconv.Atoi(parts[3])
-		if e != nil || len(lines) < n+1 {
+		if e != nil || n < 0 || len(lines) < n+1 {
 			return errInvalidFormat
 		}
 		deps := make([]depPkg, 0, n)
